@@ -81,8 +81,19 @@ class Seg:
             return out
         return [self]
 
+    def leaves(self):
+        """leaf segments including those inside a 'sorted' wrapper (for element-wise rewriting only)"""
+        if self.kind in ('nest', 'sorted'):
+            out = []
+            for i in self.inner:
+                out += i.leaves()
+            return out
+        return [self]
+
     def __repr__(self):
         from .sym import show
+        if self.kind == 'sorted':
+            return 'sorted(%s) [%s]' % (self.what, '; '.join(repr(i) for i in self.inner))
         if self.kind == 'each':
             s = 'each %s -> %s' % (show(self.src), show(self.elem))
         elif self.kind == 'nest':
@@ -156,6 +167,17 @@ def apply_fn(facts, f, args):
                 return None
             # closure parameters first, then captured variables (whose trees may mention the PARENT's parameters)
             r = subst(ret_choice(facts, clo), rep)
+
+            def proj(n):
+                # a component of a tuple the argument spells out (`|&(tp, _, _)| tp` applied to `(a, b, c)`)
+                if n[0] == 'field' and isinstance(n[2], int):
+                    tb = n[1]
+                    while isinstance(tb, tuple) and tb and tb[0] in ('ref', 'deref', 'copy', 'move') and len(tb) > 1 and isinstance(tb[1], tuple):
+                        tb = tb[1]
+                    if isinstance(tb, tuple) and tb and tb[0] == 'agg' and tb[1] == 'tuple' and n[2] < len(tb[3]):
+                        return tb[3][n[2]]
+                return None
+            r = subst(r, proj)
             caps = f[3] if len(f) > 3 and isinstance(f[3], tuple) else ()
 
             def cap(n):
@@ -178,14 +200,90 @@ def apply_fn(facts, f, args):
     return ('apply', f, tuple(args))
 
 
+def _unzip_half(facts, body, t, level):
+    """one half of `iter.unzip()` (`let (a, b) = it.unzip();`): the sequence of the iterator with that component of every element;
+    False when t is not of that form"""
+    if not (isinstance(t, tuple) and t and t[0] == 'field' and isinstance(t[2], int) and t[2] in (0, 1)):
+        return False
+    u = peel(nosite(t[1]))
+    if isinstance(u, tuple) and u and u[0] == 'var' and len(u) > 2:
+        u = peel(nosite(init_value(body, u)))
+    if not (isinstance(u, tuple) and u and u[0] == 'call' and last_seg(u[1]) == 'unzip' and len(u[2]) == 1):
+        return False
+    x = seq_of_iter(facts, body, u[2][0], level)
+    if x is None:
+        return None
+    out = []
+    for sg in x:
+        sg = sg.copy()
+        for i in sg.leaves():
+            if i.elem is not None and i.kind != 'opaque':
+                e_ = peel(i.elem)
+                i.elem = e_[3][t[2]] if (e_[0] == 'agg' and e_[1] == 'tuple' and len(e_[3]) == 2) else ('field', i.elem, t[2])
+        out.append(sg)
+    return out
+
+
+HASH_ITER = re.compile(r'(HashMap|HashSet|hash_map|hash_set)\b.*::(iter|into_iter|iter_mut|drain|keys|values|into_keys|into_values|values_mut)$')
+
+
+def unhash(src):
+    """the source of a run without its `hash_order(..)` marker (for consumers that do not depend on the order: integer sums, sets)"""
+    c = src
+    if isinstance(c, tuple) and c and c[0] == 'call' and c[1] == 'hash_order' and len(c[2]) == 1:
+        return c[2][0]
+    return src
+
+
 def seq_of_iter(facts, body, t, level=0):
-    """segments produced by iterating the iterator expression `t`"""
+    """segments produced by iterating the iterator expression `t`; iteration over a hash map / set yields its entries in hash
+    order: the source of such a run is wrapped as `hash_order(src)` so that no rule mistakes it for the order of whatever the map was
+    filled from"""
+    hashed = False
+    t0 = t
+    for _ in range(8):
+        if isinstance(t0, tuple) and t0 and t0[0] == 'call' and t0[2] and last_seg(t0[1]) in ('iter', 'into_iter', 'iter_mut', 'by_ref', 'cloned', 'copied', 'deref',
+                                                                                           'deref_mut', 'as_ref', 'borrow', 'clone', 'drain', 'keys', 'values',
+                                                                                           'into_keys', 'into_values', 'values_mut', 'peekable', 'fuse'):
+            if HASH_ITER.search(t0[1]):
+                hashed = True
+                break
+            t0 = t0[2][0]
+            continue
+        if isinstance(t0, tuple) and t0 and t0[0] in ('ref', 'deref', 'copy', 'move') and len(t0) > 1 and isinstance(t0[1], tuple):
+            t0 = t0[1]
+            continue
+        break
+    r = _seq_of_iter(facts, body, t, level)
+    if hashed and r is not None:
+        out = []
+        for sg in r:
+            sg = sg.copy()
+            if sg.kind in ('each', 'nest') and not (isinstance(sg.src, tuple) and sg.src and sg.src[0] == 'call' and sg.src[1] == 'hash_order'):
+                sg.src = ('call', 'hash_order', (sg.src,))
+            out.append(sg)
+        return out
+    return r
+
+
+def _seq_of_iter(facts, body, t, level=0):
     t = peel(t)
     if isinstance(t, tuple) and t and t[0] == 'var':
         # a named iterator variable (`let mut it = ..;`): use its initial value
+        if len(t) > 2 and isinstance(t[2], int) and re.match(r'^(&(mut )?)?(std|alloc)::(vec::Vec|collections::VecDeque|collections::vec_deque::VecDeque|string::String)\b', body.local_ty(t[2]) or ''):
+            # a named collection that is appended to or rearranged in place after its initialisation (`v.sort_by_key(..)`, `v.push(..)`):
+            # its contents are not its initial value
+            for u in body.terms('call'):
+                if u.args and u.bb in body.reachable and (APPEND.search(u.callee_res() or '') or MUTATE.search(u.callee_res() or '')):
+                    r0 = core(sym(body, u.args[0]))
+                    if r0[0] == 'var' and len(r0) > 2 and r0[2] == t[2]:
+                        return seq_of_var(facts, body, t[2])
         iv = init_value(body, t)
         if iv != t:
             return seq_of_iter(facts, body, iv, level)
+    uz = _unzip_half(facts, body, t, level)
+    if uz is not False:
+        return uz
     r = _seq_of_choice(facts, body, t, level)
     if r is not None:
         return r
@@ -206,7 +304,7 @@ def seq_of_iter(facts, body, t, level=0):
             out = []
             for s in x:
                 s = s.copy()
-                for i in s.flat():
+                for i in s.leaves():
                     if i.elem is not None and i.kind != 'opaque':
                         i.elem = apply_fn(facts, a[1], (i.elem,))
                 out.append(s)
@@ -275,6 +373,9 @@ def seq_of_iter(facts, body, t, level=0):
             inner = peel(a[0])
             if inner[0] == 'call' and last_seg(inner[1]) == 'repeat':
                 return [Seg('repeat', elem=nosite(inner[2][0]), count=nosite(a[1]), body=body, level=level)]
+            if inner[0] == 'call' and last_seg(inner[1]) == 'repeat_with' and len(inner[2]) == 1:
+                # repeat_with(|| v.clone()).take(n): n values produced by the closure
+                return [Seg('repeat', elem=nosite(apply_fn(facts, inner[2][0], ())), count=nosite(a[1]), body=body, level=level)]
         if n == 'repeat_n' and len(a) == 2:
             return [Seg('repeat', elem=nosite(a[0]), count=nosite(a[1]), body=body, level=level)]
     if isinstance(t, tuple) and t and t[0] == 'call' and not t[2] and last_seg(t[1]) == 'empty':
@@ -587,6 +688,12 @@ def seq_of_var(facts, body, local):
         for reg, lp, members in order(groups, lambda g: g[0]):
             if lp is None:
                 for t, k in members:
+                    if k == 'mutate' and not nest and re.match(r'sort(_unstable)?(_by|_by_key|_by_cached_key)?$', last_seg(t.callee_res() or '')):
+                        # everything written so far, rearranged by an in-place sort: one 'sorted' segment wrapping it (consumers that do
+                        # not know the kind treat it as opaque)
+                        out = [Seg('sorted', inner=list(segs) + out, what=last_seg(t.callee_res() or ''), term=t, body=body)]
+                        segs[:] = []
+                        continue
                     out += direct(t, k, scope_entry, nest, level)
                 continue
             nx = next_call_of(body, lp)
@@ -634,6 +741,9 @@ def seq_of_var(facts, body, local):
 def seq_of(facts, body, tree, _novar=None, level=0):
     """SEQ normal form of the collection denoted by `tree` in `body`"""
     t = peel(tree)
+    uz = _unzip_half(facts, body, t, level)
+    if uz is not False:
+        return uz
     if isinstance(t, tuple) and t and t[0] == 'unwrap':
         # the success payload of a Result / Option: `x?`, `x.unwrap()`; when x is a local set to Ok(v) on one branch and to
         # errors on the others (the shape of a fallible helper), the collection is v
